@@ -131,6 +131,12 @@ let do_rdp t =
 
 let rec adj_ok f = function a :: (b :: _ as t) -> f a b && adj_ok f t | _ -> true
 
+let sdup_props p c out =
+  if not (sublistb out p) then prop "stripdup.not-subsequence" "result is not a subsequence";
+  if not (adj_ok (fun a b -> not (pt_eqb a b)) out) then prop "stripdup.adjacent-duplicate-left" "equal consecutive points remain";
+  if c && plen out > 1 && pt_eqb (List.hd out) (last_of out) then prop "stripdup.closing-duplicate-left" "closed: last equals first";
+  if not (List.for_all (fun q -> List.exists (pt_eqb q) out) p) then prop "stripdup.point-lost" "a point value disappeared"
+
 let do_sdup t =
   let c = next_bool t in let p = read_path t in
   let m = strip_duplicates p c in
@@ -138,12 +144,42 @@ let do_sdup t =
     let out = read_path t in
     cmp_path "strip_duplicates" m out;
     nontrivial := not (peq out p);
-    if not (sublistb out p) then prop "stripdup.not-subsequence" "result is not a subsequence";
-    if not (adj_ok (fun a b -> not (pt_eqb a b)) out) then prop "stripdup.adjacent-duplicate-left" "equal consecutive points remain";
-    if c && plen out > 1 && pt_eqb (List.hd out) (last_of out) then prop "stripdup.closing-duplicate-left" "closed: last equals first";
-    if not (List.for_all (fun q -> List.exists (pt_eqb q) out) p) then prop "stripdup.point-lost" "a point value disappeared";
+    sdup_props p c out;
     ""
   end
+
+let do_sdups t =
+  let c = next_bool t in let ps = read_paths t in
+  let m = strip_duplicates_paths ps c in
+  if not (expect_eq t) then show_res show_paths m else begin
+    let outs = read_paths t in
+    (match m with
+     | Ok mp when List.length mp = List.length outs && List.for_all2 peq mp outs -> ()
+     | r -> corr (Printf.sprintf "strip_duplicates(Paths64) model=[%s] impl=[%s]" (show_res show_paths r) (show_paths outs)));
+    nontrivial := true;
+    if List.length outs <> List.length ps then prop "stripdup.paths-count" "Paths overload: number of paths changed"
+    else List.iter2 (fun p out -> sdup_props p c out) ps outs;
+    ""
+  end
+
+(* the defining equations of StripNearEqual, judged on the implementation's output (int64 and double points) *)
+let snear_props p d c out =
+  if not (sublistb out p) then prop "stripnear.not-subsequence" "result is not a subsequence";
+  if not (adj_ok (fun a b -> not (near_equal b a d)) out) then prop "stripnear.adjacent-near-left" "near-equal consecutive points remain";
+  if c && plen out > 1 && near_equal (last_of out) (List.hd out) d then
+    prop "stripnear.closing-near-left" "closed: the last point of the result is still within the tolerance of the first";
+  if p <> [] && (out = [] || not (pt_eqb (List.hd out) (List.hd p))) then prop "stripnear.first-lost" "first point not kept"
+
+let ptd_eq (x, y) (u, v) = feq x u && feq y v
+let rec sublist_d s l = match s, l with
+  | [], _ -> true | _, [] -> false
+  | a :: s', b :: l' -> if ptd_eq a b then sublist_d s' l' else sublist_d s l'
+let snear_props_d p d c out =
+  if not (sublist_d out p) then prop "stripnear.not-subsequence" "PathD: result is not a subsequence";
+  if not (adj_ok (fun a b -> not (near_equal_d b a d)) out) then prop "stripnear.adjacent-near-left" "PathD: near-equal consecutive points remain";
+  if c && List.length out > 1 && near_equal_d (last_of out) (List.hd out) d then
+    prop "stripnear.closing-near-left" "PathD, closed: the last point of the result is still within the tolerance of the first";
+  if p <> [] && (out = [] || not (ptd_eq (List.hd out) (List.hd p))) then prop "stripnear.first-lost" "PathD: first point not kept"
 
 let do_snear t =
   let d = next_f t in let c = next_bool t in let p = read_path t in
@@ -152,10 +188,51 @@ let do_snear t =
     let out = read_path t in
     cmp_path "strip_near_equal" m out;
     nontrivial := not (peq out p);
-    if not (sublistb out p) then prop "stripnear.not-subsequence" "result is not a subsequence";
-    if not (adj_ok (fun a b -> not (near_equal b a d)) out) then prop "stripnear.adjacent-near-left" "near-equal consecutive points remain";
-    if c && plen out > 1 && near_equal (last_of out) (List.hd out) d then prop "stripnear.closing-near-left" "closed: last is near first";
-    if p <> [] && (out = [] || not (pt_eqb (List.hd out) (List.hd p))) then prop "stripnear.first-lost" "first point not kept";
+    snear_props p d c out;
+    ""
+  end
+
+let do_sneard t =
+  let d = next_f t in let c = next_bool t in let p = read_pathd t in
+  let m = strip_near_equal_d p d c in
+  if not (expect_eq t) then show_res show_pathd m else begin
+    let out = read_pathd t in
+    (match m with
+     | Ok mp when pathd_eq mp out -> ()
+     | r -> corr (Printf.sprintf "strip_near_equal<double> model=[%s] impl=[%s]" (show_res show_pathd r) (show_pathd out)));
+    nontrivial := not (pathd_eq out p);
+    snear_props_d p d c out;
+    ""
+  end
+
+let show_pathsd ps = String.concat " " (string_of_int (List.length ps) :: List.map show_pathd ps)
+
+(* Paths overloads: the model is the single-path model applied to every path; the equations are judged per path *)
+let do_snears t =
+  let d = next_f t in let c = next_bool t in let ps = read_paths t in
+  let m = strip_near_equal_paths ps d c in
+  if not (expect_eq t) then show_res show_paths m else begin
+    let outs = read_paths t in
+    (match m with
+     | Ok mp when List.length mp = List.length outs && List.for_all2 peq mp outs -> ()
+     | r -> corr (Printf.sprintf "strip_near_equal(Paths64) model=[%s] impl=[%s]" (show_res show_paths r) (show_paths outs)));
+    nontrivial := true;
+    if List.length outs <> List.length ps then prop "stripnear.paths-count" "Paths overload: number of paths changed"
+    else List.iter2 (fun p out -> snear_props p d c out) ps outs;
+    ""
+  end
+
+let do_snearsd t =
+  let d = next_f t in let c = next_bool t in let ps = read_list read_pathd t in
+  let m = strip_near_equal_paths_d ps d c in
+  if not (expect_eq t) then show_res show_pathsd m else begin
+    let outs = read_list read_pathd t in
+    (match m with
+     | Ok mp when List.length mp = List.length outs && List.for_all2 pathd_eq mp outs -> ()
+     | r -> corr (Printf.sprintf "strip_near_equal(PathsD) model=[%s] impl=[%s]" (show_res show_pathsd r) (show_pathsd outs)));
+    nontrivial := true;
+    if List.length outs <> List.length ps then prop "stripnear.paths-count" "PathsD overload: number of paths changed"
+    else List.iter2 (fun p out -> snear_props_d p d c out) ps outs;
     ""
   end
 
@@ -289,6 +366,10 @@ let handle t =
   | "RDP" -> do_rdp t
   | "SDUP" -> do_sdup t
   | "SNEAR" -> do_snear t
+  | "SNEARD" -> do_sneard t
+  | "SNEARS" -> do_snears t
+  | "SNEARSD" -> do_snearsd t
+  | "SDUPS" -> do_sdups t
   | "BOUNDS" -> do_bounds t
   | "TRANS" -> do_trans t
   | "LEN" -> do_len t
